@@ -296,7 +296,31 @@ def refute(pid, key, label, obname, repo_src, replay_dir, seed=0, first_verdict=
         v = rr.ctx.inputs.get(name)
         if v is not None and is_sym(v) and lo < hi:
             ranges.append(z3.And(v > lo, v < hi) if z3.is_real(v) else z3.And(v >= int(lo), v <= int(hi)))
-    extra_sets = [ranges + [v != 0 for v in reals], [], [v > 0 for v in reals]]
+    # inputs that neither the goal nor the precondition mentions keep the value they have in the real snapshot
+    # (keeps the replayed run inside the domain of the parts of the function the obligation does not talk about)
+    defaults = []
+    try:
+        from .run import _func_symbols
+        from .snapshot import get_path
+        rel = _func_symbols(ob.goal, set(), consts=True)
+        for t in rr.requires_terms or []:
+            _func_symbols(t, rel, consts=True)
+        root = rr.ctx.snapshot_root
+        if root is not None:
+            for name, v in rr.ctx.inputs.items():
+                if not (is_sym(v) and name.startswith("model.")) or v.decl().name() in rel:
+                    continue
+                try:
+                    real = get_path(root, name)
+                except Exception:
+                    continue
+                if isinstance(real, bool) and z3.is_bool(v):
+                    defaults.append(v == real)
+                elif isinstance(real, (int, float)) and not isinstance(real, bool) and not z3.is_bool(v):
+                    defaults.append(v == (z3.RealVal(repr(float(real))) if z3.is_real(v) else int(real)))
+    except Exception:
+        defaults = []
+    extra_sets = [defaults + ranges, ranges + [v != 0 for v in reals], [], [v > 0 for v in reals]]
     t_start = time.time()
     if first_verdict == "unknown" and getattr(c, "sizes", ()):
         extra_sets = []       # the solver could not decide the unbounded query: go straight to the bounded instances
